@@ -178,6 +178,11 @@ def r2_associativity(ctx: Ctx) -> None:
             ctx.check(sorted(rets_rf) == sorted([unparse(loops_rf[0].target), "-1"]), "reverse_find_token:returns", f"the index found, else -1; returns {rets_rf}")
         elif len(loops_rf) == 1 and unparse(loops_rf[0].iter) in (f"reversed(range(len({items_p})))", f"range(len({items_p}))[::-1]"):
             ctx.ok("reverse_find_token:range", "all indices, last first")
+        elif len(loops_rf) == 1 and unparse(loops_rf[0].iter) in (f"reversed(list(enumerate({items_p})))", f"list(enumerate({items_p}))[::-1]", f"reversed(tuple(enumerate({items_p})))") \
+                and isinstance(loops_rf[0].target, ast.Tuple) and len(loops_rf[0].target.elts) == 2:
+            ctx.ok("reverse_find_token:range", "all (index, item) pairs, last first")
+            rets_rf = [unparse(r.value) for r in returns_of(rf.node)]
+            ctx.check(sorted(rets_rf) == sorted([unparse(loops_rf[0].target.elts[0]), "-1"]), "reverse_find_token:returns", f"the index found, else -1; returns {rets_rf}")
         else:
             raise AnalysisError("reverse_find_token: search loop not modelled")
     miss = [s_ for s_ in body if isinstance(s_, ast.If) and always_raises(s_.body) and "lparen" in unparse(s_.test).lower()]
@@ -268,6 +273,16 @@ def _rank_accessor_name(ctx: Ctx) -> str | None:
     return fn.name if fn is not None else None
 
 
+def _operator_test(ev, test: ast.AST):
+    """`<operator text> == <literal>` with the left side spelled through any local aliases -> (canonical left text, literal)"""
+    from ..match import canon as _c
+
+    t = eq_const_test(test)
+    if t is None:
+        return None
+    return _c(ev.node, ast.parse(t[0], mode="eval").body), t[1]
+
+
 def r3_evaluation_dispatch(ctx: Ctx) -> None:
     ev = ctx.repo.func(EXPR, "eval_expression")
     loops = [n for n in ev.node.body if isinstance(n, ast.For)]
@@ -292,7 +307,7 @@ def r3_evaluation_dispatch(ctx: Ctx) -> None:
     barms, belse = if_chain(chain[0])
     seen = {}
     for test, body in barms:
-        t = eq_const_test(test)
+        t = _operator_test(ev, test)
         if t is None or t[0] != "current.token.value":
             raise AnalysisError(f"eval_expression: arm `{unparse(test)}` not modelled")
         op = t[1]
@@ -322,9 +337,9 @@ def r3_evaluation_dispatch(ctx: Ctx) -> None:
     uarms, uelse = if_chain([s for s in un_body if isinstance(s, ast.If)][0])
     useen = {}
     for test, body in uarms:
-        t = eq_const_test(test)
-        if t is None:
-            raise AnalysisError("eval_expression: unary arm test not modelled")
+        t = _operator_test(ev, test)
+        if t is None or t[0] != "current.token.value":
+            raise AnalysisError(f"eval_expression: unary arm `{unparse(test)}` not modelled")
         useen[t[1]] = body
     neg = useen.get("-")
     ok = neg is not None and len(neg) == 1 and isinstance(neg[0], ast.Assign) and unparse(neg[0].value) == f"-{v}"
@@ -383,6 +398,25 @@ def r3_evaluation_dispatch(ctx: Ctx) -> None:
     ctx.floor("eval_arms", 4)
 
 
+def number_digit_sets(ctx: Ctx) -> dict[str, str]:
+    """prefix letter -> digits accepted after it, from the table lex_number subscripts with the prefix (a dict literal bound once in
+    the function or at module level; values may be spelled with the `string` module)"""
+    from ..match import const_string, literal_binding
+
+    ln = ctx.repo.func(SSTATES, "lex_number")
+    tables = {unparse(c.args[0].value) for c in calls_in(ln.node) if call_name(c) in ("s.accept_run",) and c.args and isinstance(c.args[0], ast.Subscript)}
+    for n in walk_no_nested(ln.node):  # or: digits = TABLE[prefix]; s.accept_run(digits)
+        if isinstance(n, ast.Assign) and isinstance(n.value, ast.Subscript) and isinstance(n.value.value, ast.Name):
+            tables.add(n.value.value.id)
+    for t in sorted(tables):
+        lit = literal_binding(ln, t)
+        if isinstance(lit, ast.Dict):
+            out = {const_str(k): const_string(ln, v) for k, v in zip(lit.keys, lit.values)}
+            if all(k is not None and v is not None for k, v in out.items()):
+                return out  # type: ignore[return-value]
+    raise AnalysisError("lex_number: table of digits per base prefix not found")
+
+
 def r4_literal_bases(ctx: Ctx) -> None:
     en = ctx.repo.func(EXPR, "eval_number")
     p = en.params()[0]
@@ -408,12 +442,7 @@ def r4_literal_bases(ctx: Ctx) -> None:
     rets = returns_of(en.node)
     ctx.check(len(rets) == 1 and unparse(rets[0].value) == f"int({p}, base)", "eval_number:conversion", "int(text, base): letters under base 10 raise, so a prefixed literal without an arm is never read silently as decimal")
     ln = ctx.repo.func(SSTATES, "lex_number")
-    acc = None
-    for n in walk_no_nested(ln.node):
-        if isinstance(n, ast.Assign) and unparse(n.targets[0]) == "acceptable_values" and isinstance(n.value, ast.Dict):
-            acc = {const_str(k): const_str(v) for k, v in zip(n.value.keys, n.value.values)}  # type: ignore[arg-type]
-    if acc is None:
-        raise AnalysisError("lex_number: acceptable_values literal not found")
+    acc = number_digit_sets(ctx)
     hexd = acc.get("x") or ""
     ctx.check(set(hexd) == set("0123456789abcdefABCDEF"), "lex_number[x]", "hex digits in both letter cases")
     ctx.check(set(acc.get("b") or "") == {"0", "1"}, "lex_number[b]", "binary digits")
@@ -423,12 +452,20 @@ def r4_literal_bases(ctx: Ctx) -> None:
     for n in walk_no_nested(ln.node):
         if isinstance(n, ast.Compare) and len(n.ops) == 1 and isinstance(n.ops[0], ast.In) and unparse(n.left) == "base_prefix" and isinstance(n.comparators[0], (ast.Tuple, ast.List, ast.Set)):
             pref = {const_str(e) for e in n.comparators[0].elts}
-        if isinstance(n, ast.Compare) and len(n.ops) == 1 and isinstance(n.ops[0], ast.In) and unparse(n.left) == "base_prefix" and unparse(n.comparators[0]) == "acceptable_values":
-            pref = set(acc)
+        if isinstance(n, ast.Compare) and len(n.ops) == 1 and isinstance(n.ops[0], ast.In) and unparse(n.left) == "base_prefix" and isinstance(n.comparators[0], ast.Name):
+            from ..match import literal_binding as _lb
+
+            lit_ = _lb(ln, n.comparators[0].id)
+            if isinstance(lit_, ast.Dict):
+                pref = {const_str(k) for k in lit_.keys}
+            elif isinstance(lit_, (ast.Tuple, ast.List, ast.Set)):
+                pref = {const_str(e) for e in lit_.elts}
     if pref is None:
         raise AnalysisError("lex_number: prefix test not found")
     ctx.check(pref == set(acc) and {"x", "b"} <= pref, "lex_number:prefixes", f"every prefix with a digit set is recognised (0x and 0b at least); test lists {sorted(pref)}, digit sets exist for {sorted(acc)}")
-    dec = [const_str(c.args[0]) for c in calls_in(ln.node) if call_name(c) == "s.accept_run" and c.args and const_str(c.args[0]) is not None]
+    from ..match import const_string as _cs6
+
+    dec = [_cs6(ln, c.args[0]) for c in calls_in(ln.node) if call_name(c) == "s.accept_run" and c.args and _cs6(ln, c.args[0]) is not None]
     ctx.check(any(set(d) == set("0123456789") for d in dec if d), "lex_number:decimal-digits", f"a decimal literal is a run over all ten digits; runs found {dec}")
     starts = []
     for fname in ("lex_initial", "lex_expression"):
@@ -436,7 +473,7 @@ def r4_literal_bases(ctx: Ctx) -> None:
         for n in walk_no_nested(f_.node):
             if isinstance(n, ast.If) and any(call_name(c) == "lex_number" for b in n.body for c in calls_in(b)):
                 t = n.test
-                lit = const_str(t.args[0]) if isinstance(t, ast.Call) and call_name(t) == "s.accept" and t.args else None
+                lit = _cs6(f_, t.args[0]) if isinstance(t, ast.Call) and call_name(t) == "s.accept" and t.args else None
                 starts.append((fname, lit))
     ctx.check(len(starts) >= 2 and all(l is not None and set(l) == set("0123456789") for _f, l in starts), "number-start-digits",
               f"a number may start with any decimal digit in both lexing contexts; found {starts}")
